@@ -334,6 +334,13 @@ inline std::string crash_signature(const std::string& err, int status, std::stri
     return frame.empty() ? kind : kind + "/" + frame;
 }
 
+// optional hook: turn a child's exit status into a failure kind (used by in-process scheduler runs,
+// where the scheduler ends the process with a reserved exit code on deadlock / oracle failure)
+inline std::function<bool(int status, std::string* kind, std::string* msg)>& exit_translator() {
+    static std::function<bool(int, std::string*, std::string*)> f;
+    return f;
+}
+
 inline std::string tmp_path(const char* tag) {
     const char* d = getenv("VERIF_TMP");
     std::string dir = d ? d : "/tmp";
@@ -383,7 +390,8 @@ inline bool run_child(const std::function<void()>& body, double timeout_s = 0) {
     if (!ok) {
         std::string err = read_file(errfile);
         std::string summary;
-        std::string sig = crash_signature(err, status, &summary);
+        std::string sig;
+        if (!(exit_translator() && exit_translator()(status, &sig, &summary))) sig = crash_signature(err, status, &summary);
         fail(std::string(shm()->op) + "/" + sig, shm()->replay, summary);
     }
     unlink(errfile.c_str());
@@ -420,10 +428,13 @@ inline void run_cases(uint64_t n, const std::function<void(uint64_t)>& fn) {
             }
             shm()->cur_case = n;
         });
-        if (ok) {
-            if (shm()->cur_case == UINT64_MAX) capped = true;
+        if (ok && shm()->cur_case == UINT64_MAX) {
+            capped = true;
             break;
         }
+        if (ok && shm()->cur_case >= n) break;
+        if (ok)  // the child left through exit(0) in the middle of a case
+            fail(std::string(shm()->op) + "/premature-exit", shm()->replay, "the process exited inside this case");
         start = shm()->cur_case + a.nshards;
         if (++crashes >= 200) {
             cap("more than 200 crashing cases in one shard; remaining cases skipped");
@@ -437,11 +448,15 @@ inline void run_cases(uint64_t n, const std::function<void(uint64_t)>& fn) {
 // (the replay string) in `skip` and start over, treating it as terminal.
 inline void run_isolated(const std::function<void(const std::set<std::string>&)>& fn, int max_restarts = 40) {
     std::set<std::string> skip;
+    // counters added by fn are re-computed by every restart; counters of earlier work in this process stay
+    Shared* s = shm();
+    long long saved[96];
+    int saved_n = s->nstat;
+    for (int i = 0; i < 96; ++i) saved[i] = s->stat_val[i];
+    int saved_samples = s->nsample;
     for (int r = 0;; ++r) {
-        // counters are re-computed by every restart
-        Shared* s = shm();
-        for (int i = 0; i < s->nstat; ++i) s->stat_val[i] = 0;
-        s->nsample = 0;
+        for (int i = 0; i < s->nstat; ++i) s->stat_val[i] = i < saved_n ? saved[i] : 0;
+        s->nsample = saved_samples;
         bool ok = run_child([&] { fn(skip); });
         if (ok) break;
         skip.insert(shm()->replay);
